@@ -674,6 +674,8 @@ func c05ExecValidate(s *c05VStore, fork, consistent bool, raw []byte) Result {
 		if !resolved || !sameAsset || !outsPositive || !distinct || inSum.Sign() <= 0 || inSum.Cmp(outSum) != 0 {
 			res.PropKey = "C01:conservation"
 			res.PropDesc = fmt.Sprintf("accepted with inputs=%s outputs=%s resolved=%v sameAsset=%v outputsPositive=%v distinctInputs=%v", inSum, outSum, resolved, sameAsset, outsPositive, distinct)
+		} else if why := c05CheckBoundAsset(s, ver, tt); why != "" {
+			res.PropKey, res.PropDesc = "C01:asset-mismatch", why
 		} else if why := c05CheckAuthorization(s, ver, hash, tt); why != "" {
 			res.PropKey, res.PropDesc = "C02:unauthorized", why
 		} else if why := c05TamperStream(s, ver, raw, fork, tt); why != "" {
@@ -875,6 +877,23 @@ func c05TamperStream(s *c05VStore, ver *common.VersionedTransaction, raw []byte,
 		if w := try(at+r.Intn(64), "signature"); w != "" {
 			return w
 		}
+	}
+	return ""
+}
+
+// C01 "moves exactly one asset", independent of the model: an accepted deposit into an asset id
+// that is already bound to a token names exactly that token (chain and key byte for byte)
+func c05CheckBoundAsset(s *c05VStore, ver *common.VersionedTransaction, tt uint8) string {
+	if tt != common.TransactionTypeDeposit || len(ver.Inputs) != 1 || ver.Inputs[0].Deposit == nil {
+		return ""
+	}
+	a := s.assets[ver.Asset]
+	if a == nil {
+		return ""
+	}
+	d := ver.Inputs[0].Deposit
+	if a.asset.Chain != d.Chain || !bytes.Equal([]byte(a.asset.AssetKey), []byte(d.AssetKey)) {
+		return fmt.Sprintf("deposit of token (%s, %q) accepted into asset %s bound to (%s, %q)", d.Chain, d.AssetKey, ver.Asset, a.asset.Chain, a.asset.AssetKey)
 	}
 	return ""
 }
